@@ -133,6 +133,9 @@ def build(variant="plain", max_l=None, max_unrol=None, log=None, base_dir=None):
         stamp = os.path.join(bdir, ".ok")
         if os.path.exists(stamp) and os.path.exists(b.lib):
             open(os.path.join(bdir, ".used"), "w").write(str(time.time()))
+            chk = os.path.join(bdir, "verif_checked_multiarr.hpp")
+            if "_BOUNDS" in flags and os.path.exists(chk):
+                b.flags = flags + " -D_GLIBCXX_ASSERTIONS -include " + chk
             return b
         if base_dir is None:
             _prune(h)
@@ -150,6 +153,15 @@ def build(variant="plain", max_l=None, max_unrol=None, log=None, base_dir=None):
         shutil.rmtree(bdir, ignore_errors=True)
         os.makedirs(bdir)
         t0 = time.time()
+        if "_BOUNDS" in flags:
+            # per-dimension index checks: a checked copy of multiarr.hpp regenerated from the working tree, force-included
+            sys.path.insert(0, VERIF)
+            from translate import boundscheck
+            txt, _ = boundscheck.translate()
+            chk = os.path.join(bdir, "verif_checked_multiarr.hpp")
+            open(chk, "w").write(txt)
+            flags = flags + " -D_GLIBCXX_ASSERTIONS -include " + chk
+            b.flags = flags
         cmd = ["cmake", "-G", "Ninja", "-S", srcdir, "-B", bdir,
                "-DCMAKE_BUILD_TYPE=None", "-DCMAKE_CXX_FLAGS=" + flags,
                "-DCMAKE_C_FLAGS=-O1",
